@@ -60,7 +60,7 @@ def ref(mode, src, raw=True):
     except ast34.Unsupported as e: return ("newer", str(e))
     except RecursionError: return ("newer", "recursion")
 
-NEWER = re.compile(r":=|\basync\b|\bawait\b|(?<![\w.)\]])@|[^\w]f[\"']|[^\w][fF][rR]?[\"']|[0-9]_[0-9]|\bmatch\b|\bcase\b|\*\*?\s*\w+\s*,\s*\)|\bprint\b\s+[\w'\"]|\bexec\b\s+[\w'\"]|\bnonlocal\b|\bwith\s*\(|=\s*\*|\breturn\s*\*|\bin\s*\*|\[\s*\*|\{\s*\*|,\s*\*\w+\s*,\s*\w+\s*[\])]|\bfor\b[^:\n]*\bin\b[^:\n]*\*|\bdef\b[^:\n]*\*[^:\n]*,\s*\)|\byield\s*\*")
+NEWER = re.compile(r":=|\basync\b|\bawait\b|(?<![\w.)\]])@|[^\w]f[\"']|[^\w][fF][rR]?[\"']|[0-9]_[0-9]|\bmatch\b|\bcase\b|\*\*?\s*\w+\s*,\s*\)|\*\*?\s*\w+\s*,\s*:|\bprint\b\s+[\w'\"]|\bexec\b\s+[\w'\"]|\bnonlocal\b|\bwith\s*\(|=\s*\*|\breturn\s*\*|\bin\s*\*|\[\s*\*|\{\s*\*|,\s*\*\w+\s*,\s*\w+\s*[\])]|\bfor\b[^:\n]*\bin\b[^:\n]*\*|\bdef\b[^:\n]*\*[^:\n]*,\s*\)|\byield\s*\*")
 OLDER = re.compile(r"[\[({,] ?\*|\bdel [^;]*\*|\bif\s+lambda\b|<>|`|\bur['\"]|\bUR['\"]|\bu[rR]['\"]")
 
 def flat(src):
@@ -179,7 +179,8 @@ def check(res):
     for _ in range(300 if tier == "quick" else 5000):
         g = c01.Gen(rnd); base.append(("eval", g.expr(rnd.choice([1, 2, 3, 4]))[0]))
         g = c01.Gen(rnd); base.append(("exec", g.stmt(rnd.choice([0, 1, 2])) + "\n"))
-    cases = []; kinds = []
+    import c06_probes
+    cases = list(c06_probes.INCOMPLETE); kinds = ["incomplete-statement"] * len(cases)
     for m, s in base:
         cases.append((m, s)); kinds.append("base")
         for _ in range(4 if tier == "quick" else 30):
@@ -239,7 +240,8 @@ def diffctx(a, b):
     return dict(observed=a[max(0, i - 80):i + 120], expected=b[max(0, i - 80):i + 120])
 
 def named_unicode_escape(x): return "\\N{" in x[2]
-MATCHERS = {"c06.named_unicode_escape": named_unicode_escape}
+def trailing_backslash(x): return x[2].rstrip(" \t\n\f").endswith(chr(92)) and x[3].startswith("accepted a text")
+MATCHERS = {"c06.named_unicode_escape": named_unicode_escape, "c06.trailing_backslash_at_eof": trailing_backslash}
 
 def replay(path):
     d = json.load(open(path)); print(json.dumps(d, indent=1)[:3000]); return 1
